@@ -251,7 +251,7 @@ theorem desc_iface_methods {F : Facts} {v2 : Bool} {u1 u2 : U} {ob1 ob2 : Obj} {
   refine ⟨x2, by rw [← hk1, ← e2.1]; exact l2, false, nameOf v2 m1.str, .inl ⟨rfl, reg1⟩, .inl ⟨rfl, by rw [← e2.2]; exact reg2⟩⟩
 
 /-- the three invariants together -/
-def Faithful (bt : List Builtin) (F : Facts) (v2 : Bool) (u : U) : Prop := Full bt F v2 u ∧ SN F v2 u
+def Faithful (bt : List Builtin) (F : Facts) (v2 : Bool) (u : U) : Prop := Full bt F v2 u ∧ SN bt F v2 u
 
 /-- **same_name_same_content**: in two faithful universes over the same facts, the filled objects registered
 under one name say the same, and their references are again registered under common names -/
